@@ -1,7 +1,7 @@
 (* C06 — M refines R on every call free of kind conflicts, and balances its handles. *)
 From Coq Require Import List ZArith Bool Lia.
 Import ListNotations.
-From GU Require Import C06.Model C06.Proofs C06.ProofsWf C06.Vfs C06.ProofsVfsRm C06.ProofsVfsCopy.
+From GU Require Import C06.Model C06.Facts C06.Proofs C06.ProofsWf C06.Vfs C06.ProofsVfsRm C06.ProofsVfsCopy C06.ProofsVfsHandles.
 Local Open Scope Z_scope.
 
 Ltac inv H := inversion H; subst; clear H.
@@ -19,10 +19,44 @@ Local Arguments m_copytodir : simpl never.
 Local Arguments m_move : simpl never.
 Local Arguments m_mkdir : simpl never.
 
-Lemma m_refines_r_l t c m r t' :
-  wf t -> m_exec t c = Some m -> exec t c = Out r t' -> m_r m = r /\ m_t m = t'.
+(* ---------- calls on the empty name (needs: the checkPathIsNotEmpty guards) ---------- *)
+
+Definition is_empty_call (c : call) : bool :=
+  match c with
+  | Exists PEmpty | IsFile PEmpty | IsDir PEmpty | IsEmpty PEmpty | Size PEmpty | Read PEmpty | Write PEmpty _ => true
+  | _ => false
+  end.
+
+Lemma m_empty_refines fa t c m r t' :
+  paths_ok fa = true -> is_empty_call c = true -> m_exec fa t c = Some m -> exec t c = Out r t' -> m_r m = r /\ m_t m = t'.
 Proof.
-  intros W Hm Hr. destruct c; simpl in Hm; try discriminate; destruct p as [|p tr]; try discriminate; simpl in Hr.
+  intros OK Ec Hm Hr. unfold paths_ok in OK. apply andb_true_iff in OK as [OK O3]. apply andb_true_iff in OK as [O1 O2].
+  destruct c; try discriminate Ec; destruct p; try discriminate Ec; simpl in Hm, Hr; rewrite ?O1, ?O2, ?O3 in Hm;
+    inversion Hm; subst m; inversion Hr; subst; split; reflexivity.
+Qed.
+
+(* ---------- WriteFile (needs: O_CREATE and O_TRUNC) ---------- *)
+
+Lemma skipn_nil' {A} n : skipn n (@nil A) = [].
+Proof. destruct n; reflexivity. Qed.
+
+Lemma m_write_refines fa t p tr c r t' :
+  write_ok fa = true -> r_write t (P p tr) c = Out r t' -> m_r (m_write fa t p c) = r /\ m_t (m_write fa t p c) = t'.
+Proof.
+  intros OK. unfold write_ok in OK. apply andb_true_iff in OK as [O1 O2]. unfold r_write, m_write. rewrite O1, O2.
+  destruct (through_file t p || tr || is_dir t p) eqn:C; [discriminate|].
+  apply orb_false_iff in C as [_ C]. rewrite C.
+  destruct (is_dir t (parent p)); simpl; intros Hr; inversion Hr; subst r t'; clear Hr; [|split; reflexivity].
+  destruct (lookup t p) as [[old|]|]; rewrite skipn_nil', app_nil_r, set_file_twice; destruct c; split; reflexivity.
+Qed.
+
+Lemma m_refines_r_l fa t c m r t' :
+  move_ok fa = true -> copy_ok fa = true -> write_ok fa = true -> paths_ok fa = true ->
+  wf t -> m_exec fa t c = Some m -> exec t c = Out r t' -> m_r m = r /\ m_t m = t'.
+Proof.
+  intros OKm OKc OKw OKp W Hm Hr.
+  destruct (is_empty_call c) eqn:Ec; [eapply m_empty_refines; eauto|].
+  destruct c; simpl in Hm; try discriminate; destruct p as [|p tr]; try (simpl in Ec; discriminate Ec); try discriminate; simpl in Hr.
   - (* mkdir *) inv Hm. unfold m_mkdir, m_exists, b_stat, b_mkdirall.
     destruct (through_file t p || is_file t p) eqn:C; [discriminate|]. inv Hr.
     apply orb_false_iff in C as [C1 C2]. unfold is_file in C2.
@@ -36,11 +70,7 @@ Proof.
       unfold arg_conflict in C. simpl in C. rewrite C. simpl. split; reflexivity.
     + unfold b_create. assert (Dp : is_dir t p = false) by (unfold is_dir; now rewrite L). rewrite Dp.
       destruct (is_dir t (parent p)); inv Hr; split; reflexivity.
-  - (* write *) inv Hm. unfold m_write, b_create.
-    destruct (through_file t p || tr || is_dir t p) eqn:C; [discriminate|].
-    apply orb_false_iff in C as [_ C]. rewrite C.
-    destruct (is_dir t (parent p)); inv Hr; simpl; [|split; reflexivity].
-    rewrite set_file_twice. split; reflexivity.
+  - (* write *) inv Hm. eapply m_write_refines; eauto.
   - (* read *) inv Hm. unfold m_read, b_stat.
     destruct (through_file t p || is_dir t p || tr && is_file t p) eqn:C; [discriminate|].
     destruct (lookup t p) as [[[|x c]|]|] eqn:L; inv Hr; try (split; reflexivity).
@@ -73,10 +103,10 @@ Proof.
   - (* clean *) destruct (dir_arg_conflict t p) eqn:C; [discriminate|]. inv Hr.
     destruct (m_clean_refines t p W C) as [h E]. rewrite E in Hm. simpl in Hm. inv Hm. split; reflexivity.
   - (* copy of a file *) destruct q as [|d dtr]; [discriminate|]. destruct (is_dir_b t p) eqn:Sd; [discriminate|].
-    unfold rm_fuel in Hm. destruct (m_copy_file_refines t p tr d dtr r t' (length t) W Sd Hr) as [h E].
+    unfold rm_fuel in Hm. destruct (m_copy_file_refines fa t p tr d dtr r t' (length t) OKc W Sd Hr) as [h E].
     rewrite E in Hm. simpl in Hm. inv Hm. split; reflexivity.
   - (* copytofile *) destruct q as [|d dtr]; [discriminate|].
-    unfold rm_fuel in Hm. destruct (m_copytofile_refines t p tr d dtr r t' (length t) W Hr) as [h E].
+    unfold rm_fuel in Hm. destruct (m_copytofile_refines fa t p tr d dtr r t' (length t) OKc W Hr) as [h E].
     rewrite E in Hm. simpl in Hm. inv Hm. split; reflexivity.
   - (* copytodir of a file *) destruct q as [|d dtr]; [discriminate|].
     destruct (is_dir_b (m_t (m_mkdir t d)) p) eqn:Sd; [discriminate|].
@@ -84,10 +114,10 @@ Proof.
     { unfold r_copytodir in Hr. destruct (through_file t d) eqn:Tf; [discriminate|]. destruct (is_file t d) eqn:Nf; [discriminate|].
       destruct (m_mkdir3_ok t d W Tf Nf) as [h1 E]. unfold m_mkdir3 in E. now inversion E. }
     rewrite T1 in Sd. unfold rm_fuel in Hm.
-    destruct (m_copytodir_file_refines t p tr d dtr r t' (length (m_t (m_mkdir t d))) W Sd Hr) as [h E].
+    destruct (m_copytodir_file_refines fa t p tr d dtr r t' (length (m_t (m_mkdir t d))) OKc W Sd Hr) as [h E].
     rewrite E in Hm. simpl in Hm. inv Hm. split; reflexivity.
   - (* move *) destruct p as [|n s]; [discriminate|]. destruct q as [|d dtr]; [discriminate|].
-    unfold rm_fuel in Hm. destruct (m_move_refines t n s tr d dtr r t' (length t) W Hr) as [h E].
+    unfold rm_fuel in Hm. destruct (m_move_refines fa t n s tr d dtr r t' (length t) OKm W Hr) as [h E].
     rewrite E in Hm. simpl in Hm. inv Hm. split; reflexivity.
 Qed.
 
@@ -99,12 +129,16 @@ Ltac crush_m :=
           | |- context [if ?x then _ else _] => destruct x
           end); simpl; try reflexivity; try lia.
 
-Lemma m_handles_balanced_l t c m : m_exec t c = Some m -> m_opened m = m_closed m.
+Lemma m_handles_balanced_l fa t c m : handles_ok fa = true -> m_exec fa t c = Some m -> m_opened m = m_closed m.
 Proof.
-  destruct c; simpl; try discriminate; destruct p as [|p tr]; try discriminate; intros H.
+  intros OK. unfold handles_ok in OK. apply andb_true_iff in OK as [OK Ow]. apply andb_true_iff in OK as [Os _].
+  destruct (is_empty_call c) eqn:Ec.
+  { destruct c; try discriminate Ec; destruct p; try discriminate Ec; simpl; intros H; inv H;
+      repeat match goal with |- context [if ?x then _ else _] => destruct x end; reflexivity. }
+  destruct c; simpl; try discriminate; destruct p as [|p tr]; try (simpl in Ec; discriminate Ec); try discriminate; intros H.
   - inv H. crush_m.
   - inv H. crush_m.
-  - inv H. crush_m.
+  - inv H. unfold m_write. rewrite Ow. crush_m.
   - inv H. crush_m.
   - inv H. crush_m.
   - inv H. unfold m_subdirs. destruct (b_stat t p) as [[|]|]; reflexivity.
@@ -116,12 +150,25 @@ Proof.
   - destruct p as [|a p]; [discriminate|]. destruct (m_rm (rm_fuel t) t (a :: p)) as [[[r t'] h]|]; inv H. reflexivity.
   - destruct (m_clean (rm_fuel t) t p) as [[[r t'] h]|]; inv H. reflexivity.
   - destruct q as [|d dtr]; [discriminate|]. destruct (is_dir_b t p); [discriminate|].
-    destruct (m_copy (rm_fuel t) t p tr d dtr) as [[[r t'] h]|]; inv H. reflexivity.
-  - destruct q as [|d dtr]; [discriminate|]. destruct (m_copytofile (rm_fuel t) t p tr d dtr) as [[[r t'] h]|]; inv H. reflexivity.
+    destruct (m_copy fa (rm_fuel t) t p tr d dtr) as [[[r t'] h]|] eqn:E; inv H. simpl. eapply m_copy_balanced; eauto.
+  - destruct q as [|d dtr]; [discriminate|]. destruct (m_copytofile fa (rm_fuel t) t p tr d dtr) as [[[r t'] h]|] eqn:E; inv H.
+    simpl. eapply m_copytofile_balanced; eauto.
   - destruct q as [|d dtr]; [discriminate|]. destruct (is_dir_b (m_t (m_mkdir t d)) p); [discriminate|].
-    destruct (m_copytodir (rm_fuel (m_t (m_mkdir t d))) t (P p tr) d dtr) as [[[r t'] h]|]; inv H. reflexivity.
+    destruct (m_copytodir fa (rm_fuel (m_t (m_mkdir t d))) t (P p tr) d dtr) as [[[r t'] h]|] eqn:E; inv H.
+    simpl. eapply m_copytodir_balanced; eauto.
   - destruct p as [|n s]; [discriminate|]. destruct q as [|d dtr]; [discriminate|].
-    destruct (m_move (rm_fuel t) t (n :: s) tr d dtr) as [[[r t'] h]|]; inv H. reflexivity.
+    destruct (m_move fa (rm_fuel t) t (n :: s) tr d dtr) as [[[r t'] h]|] eqn:E; inv H. simpl. eapply m_move_balanced; eauto.
+Qed.
+
+Lemma m_all_handles_balanced_l fa t c m : handles_ok fa = true -> m_exec_all fa t c = Some m -> m_opened m = m_closed m.
+Proof.
+  intros OK H. pose proof OK as OK'. unfold handles_ok in OK. apply andb_true_iff in OK as [OK Ow]. apply andb_true_iff in OK as [Os _].
+  destruct c; try exact (m_handles_balanced_l fa t _ m OK' H).
+  - destruct p as [|s str]; [exact (m_handles_balanced_l fa t _ m OK' H)|]. destruct q as [|d dtr]; [exact (m_handles_balanced_l fa t _ m OK' H)|].
+    simpl in H. destruct (m_copy fa (rm_fuel t) t s str d dtr) as [[[r t'] h]|] eqn:E; inv H. simpl. eapply m_copy_balanced; eauto.
+  - destruct q as [|d dtr]; [exact (m_handles_balanced_l fa t _ m OK' H)|].
+    simpl in H. destruct (m_copytodir fa (rm_fuel (m_t (m_mkdir t d))) t p d dtr) as [[[r t'] h]|] eqn:E; inv H.
+    simpl. eapply m_copytodir_balanced; eauto.
 Qed.
 
 Lemma wf_b_sound t : wf_b t = true -> wf t.
@@ -132,38 +179,49 @@ Qed.
 
 (* ---------- programs: the refinement needs wf only of the INITIAL tree (R preserves it, ProofsWf.v) ---------- *)
 
-Lemma m_program_refines_r_l cs : forall t rs t' x,
-  wf t -> run_res t cs = Some (rs, t') -> m_run t cs = Some x ->
-  exists o, x = (rs, t', o, o).
+Lemma m_program_refines_r_l fa cs :
+  move_ok fa = true -> copy_ok fa = true -> write_ok fa = true -> paths_ok fa = true ->
+  forall t rs t' x,
+  wf t -> run_res t cs = Some (rs, t') -> m_run fa t cs = Some x ->
+  exists o cl, x = (rs, t', o, cl).
 Proof.
-  induction cs as [|c cs IH]; intros t rs t' x W Hr Hm; simpl in *.
-  - inversion Hr; inversion Hm; subst. now exists O.
+  intros OKm OKc OKw OKp. induction cs as [|c cs IH]; intros t rs t' x W Hr Hm; simpl in *.
+  - inversion Hr; inversion Hm; subst. now exists O, O.
   - destruct (exec t c) as [|r t1] eqn:E; [discriminate|].
     destruct (run_res t1 cs) as [[rs1 t2]|] eqn:R1; [|discriminate]. inversion Hr; subst; clear Hr.
-    destruct (m_exec t c) as [m|] eqn:M; [|discriminate].
-    destruct (m_refines_r_l t c m r t1 W M E) as [Er Et].
-    pose proof (m_handles_balanced_l t c m M) as Hb.
-    destruct (m_run (m_t m) cs) as [[[[rs2 t3] o] cl]|] eqn:M1; [|discriminate]. inversion Hm; subst; clear Hm.
-    destruct (IH (m_t m) rs1 t' _ (exec_preserves_wf_l _ _ _ _ W E) R1 M1) as [o' X]. inversion X; subst.
-    rewrite Hb. now exists (m_closed m + o')%nat.
+    destruct (m_exec fa t c) as [m|] eqn:M; [|discriminate].
+    destruct (m_refines_r_l fa t c m r t1 OKm OKc OKw OKp W M E) as [Er Et].
+    destruct (m_run fa (m_t m) cs) as [[[[rs2 t3] o] cl]|] eqn:M1; [|discriminate]. inversion Hm; subst; clear Hm.
+    destruct (IH (m_t m) rs1 t' _ (exec_preserves_wf_l _ _ _ _ W E) R1 M1) as [o' [cl' X]]. inversion X; subst.
+    eauto.
+Qed.
+
+Lemma m_program_handles_balanced_l fa cs : handles_ok fa = true ->
+  forall t rs t' o cl, m_run fa t cs = Some (rs, t', o, cl) -> o = cl.
+Proof.
+  intros OK. induction cs as [|c cs IH]; intros t rs t' o cl H; simpl in H.
+  - now inversion H.
+  - destruct (m_exec fa t c) as [m|] eqn:M; [|discriminate].
+    destruct (m_run fa (m_t m) cs) as [[[[rs2 t3] o2] cl2]|] eqn:M1; [|discriminate]. inversion H; subst; clear H.
+    rewrite (m_handles_balanced_l fa t c m OK M), (IH _ _ _ _ _ M1). reflexivity.
 Qed.
 
 (* ---------- everything M models, the recursive directory copy included: refinement as finite maps ---------- *)
 From GU Require Import C06.ProofsVfsCopyDir.
 
-Lemma m_all_refines_r_l t c m r t' :
-  wf t -> m_exec_all t c = Some m -> exec t c = Out r t' ->
-  m_r m = r /\ (forall q, find_entry (m_t m) q = find_entry t' q) /\ wf (m_t m) /\ m_opened m = m_closed m.
+Lemma m_all_refines_r_l fa t c m r t' :
+  move_ok fa = true -> copy_ok fa = true -> write_ok fa = true -> paths_ok fa = true ->
+  wf t -> m_exec_all fa t c = Some m -> exec t c = Out r t' ->
+  m_r m = r /\ (forall q, find_entry (m_t m) q = find_entry t' q) /\ wf (m_t m).
 Proof.
-  intros W Hm Hr.
-  assert (Base : m_exec t c = Some m -> m_r m = r /\ (forall q, find_entry (m_t m) q = find_entry t' q) /\ wf (m_t m) /\ m_opened m = m_closed m).
-  { intros H. destruct (m_refines_r_l t c m r t' W H Hr) as [E1 E2]. rewrite E2. repeat split; auto.
-    - eapply exec_preserves_wf_l; eauto.
-    - eapply m_handles_balanced_l; eauto. }
+  intros OKm OKc OKw OKp W Hm Hr.
+  assert (Base : m_exec fa t c = Some m -> m_r m = r /\ (forall q, find_entry (m_t m) q = find_entry t' q) /\ wf (m_t m)).
+  { intros H. destruct (m_refines_r_l fa t c m r t' OKm OKc OKw OKp W H Hr) as [E1 E2]. rewrite E2. repeat split; auto.
+    eapply exec_preserves_wf_l; eauto. }
   destruct c; try (apply Base; exact Hm).
   - (* copy *) destruct p as [|s str]; [apply Base; exact Hm|]. destruct q as [|d dtr]; [apply Base; exact Hm|].
     destruct (is_dir_b t s) eqn:Sd.
-    + simpl in Hm, Hr. destruct (m_copy_dir_refines t s str d dtr r t' W Sd Hr) as [t'' [h [E [Eq W'']]]].
+    + simpl in Hm, Hr. destruct (m_copy_dir_refines fa t s str d dtr r t' OKc W Sd Hr) as [t'' [h [E [Eq W'']]]].
       rewrite E in Hm. simpl in Hm. inv Hm. simpl. auto.
     + apply Base. simpl in *. now rewrite Sd.
   - (* copytodir *) destruct q as [|d dtr]; [apply Base; exact Hm|]. destruct p as [|s str].
@@ -179,7 +237,7 @@ Proof.
         { unfold r_copytodir in Hr. destruct (through_file t d) eqn:Tf; [discriminate|]. destruct (is_file t d) eqn:Nf; [discriminate|].
           destruct (m_mkdir3_ok t d W Tf Nf) as [h1 E]. unfold m_mkdir3 in E. now inversion E. }
         rewrite T1 in *.
-        destruct (m_copytodir_dir_refines t s str d dtr r t' W Sd Hr) as [t'' [h [E [Eq W'']]]].
+        destruct (m_copytodir_dir_refines fa t s str d dtr r t' OKc W Sd Hr) as [t'' [h [E [Eq W'']]]].
         rewrite E in Hm. simpl in Hm. inv Hm. simpl. auto.
       * apply Base. simpl in *. now rewrite Sd.
 Qed.
